@@ -241,6 +241,35 @@ pub fn generate(seed: u64, thorough: bool, sink: &mut Sink) -> Vec<String> {
       sink.hit(if len == n { "rowcol:fits" } else { "rowcol:wrong-length" });
     }
   }
+  // whole rows from a matrix source: x[ix,:] op= M (M one row per addressed row); ix an index vector (distinct, any
+  // order) or a range; the source of exactly the addressed shape.  The i-th addressed cell (column by column) takes the i-th source element (update2v).
+  if !explore {
+    for _ in 0..(if thorough { 4000 } else { 500 }) {
+      let (rows, cols) = *rng.pick(&[(3usize, 2usize), (4, 2), (2, 3), (3, 3), (2, 4), (4, 3), (5, 2)]);
+      let kind = *rng.pick(&["f64", "f64", "f64", "u8", "i32", "f32", "u64", "i64"]);
+      let m = gen_operand(kind, rows, cols, false, &mut rng, 0);
+      let pick_ix = |n: usize, rng: &mut Rng| -> (String, usize) {
+        if rng.chance(1, 3) { let a = 1 + rng.below(n as u64) as usize; let b = a + rng.below((n - a + 1) as u64) as usize; (format!("g:{}:{}", a, b), b - a + 1) }
+        else {
+          let mut all: Vec<usize> = (1..=n).collect();
+          for i in (1..all.len()).rev() { let j = rng.below((i + 1) as u64) as usize; all.swap(i, j); }
+          let k = 1 + rng.below(n as u64) as usize;
+          (format!("vr:{}", all[..k].iter().map(|x| x.to_string()).collect::<Vec<_>>().join(" ")), k)
+        }
+      };
+      // (x[:,jx] = M and x[ix,jx] = M are not generated: at the pinned commit the first reads the source column
+      // modulo the source's row count and the second reads the source row by row; matrix sources through two
+      // selectors are outside what the property states, so neither is judged)
+      let form = rng.below(2);
+      let (s1, s2, sr, sc, op) = { let (ix, k) = pick_ix(rows, &mut rng); (ix, "a".to_string(), k, cols, *rng.pick(&["set", "add", "sub", "mul", "mul", "div"])) };
+      if sr * sc < 2 || sr < 2 && form < 2 { continue; }
+      if op == "div" && kind != "f64" && kind != "f32" { continue; }
+      let src = gen_operand(kind, sr, sc, false, &mut rng, 1);
+      let mode = if rng.chance(1, 3) { "var" } else { "tmp" };
+      cases.push(format!("assign\t{}\t{}\t{}\t{}\t{}\t{}\t{}\t{}\trowcol", kind, m, s1, s2, op, src, kind, mode));
+      sink.hit(&format!("matrix-source:{}:{}", ["rows-all", "rows-all", "all-cols", "rows-cols"][form as usize], op));
+    }
+  }
   // sequences of two to four assignments to the same variable, each a supported cell of that storage form and kind
   if !explore {
     let nseq = if thorough { 4000 } else { 400 };
